@@ -325,6 +325,7 @@ func c04(c *Ctx) {
 	c.Check(nR1 >= 6, "reader-outside-request-loop", "reader constructions found", "-", fmt.Sprint(nR1), fmt.Sprintf("expected at least 6 buffered-reader constructions over handler connections, found %d", nR1))
 	c04DatagramBuffers(c)
 	c04PendingInput(c)
+	c04ReporterQueues(c)
 	// per-line hooks of ftp and smtp: the log send is the first thing after a line was read
 	for _, hk := range []struct{ rel, typ, meth, ch string }{{"services/ftp", "Conn", "receiveLine", "rcv"}, {"services/smtp", "conn", "ReadLine", "rcv"}} {
 		fn := p.Method(hk.rel, hk.typ, hk.meth)
